@@ -4,6 +4,8 @@ Model of the per-connection tables for C13 ("no per-exchange state outlives the 
 
 The *sites* are the insertions found in today's source (`Generated.TableShape.insertions`, re-read from
 the AST on every run): token and message-ID continuations (`udp/client/conn.go`, `tcp/client/conn.go`),
+the token → message-ID entry of a confirmable request that is being written (`udp/client/conn.go`
+`requestMessageIDs`: inserted by `writeMessage`, removed by its deferred `Delete`, read by `Conn.handle` — repair of F42),
 the response cache, block-wise receive/send caches (`net/blockwise/blockwise.go`), the observation table
 (`net/observation/handler.go`), limiter endpoint queues (`limitParallelRequests.go`), the per-message-ID lock
 map (`udp/client/mutexmap.go`), the discovery tables (`udp/server/discover.go`).  Each site is classified by
@@ -68,6 +70,7 @@ def expectedBrackets : List (String × String) := [
   ("LimitParallelRequests.acquireEndpoint", "endpointQueues"),
   ("Conn.doInternal", "tokenHandlerContainer"),
   ("Conn.prepareWriteMessage", "midHandlerContainer"),
+  ("Conn.writeMessage", "requestMessageIDs"),
   ("MutexMap.Lock", "ma"),
   ("Server.DiscoveryRequest", "multicastRequests"),
   ("Server.DiscoveryRequest", "multicastHandler")]
